@@ -117,6 +117,10 @@ func (ti *TypeInfo) Enter(node ast.Node) {
 		} else if node.Operation == ast.OperationTypeSubscription {
 			ttype = schema.SubscriptionType()
 		}
+		if root, ok := ttype.(*Object); ok && root == nil {
+			// the schema has no root type for this kind of operation
+			ttype = nil
+		}
 		ti.typeStack = append(ti.typeStack, ttype)
 	case *ast.InlineFragment:
 		typeConditionAST := node.TypeCondition
